@@ -250,7 +250,7 @@ pub fn build_h1(p: H1P) -> Scenario<Arc<H1>> {
     };
     Scenario {
         name: p.name.to_string(),
-        opts: Opts { stale_reads: p.stale, stale_depth: 3, max_spurious: 0, horizon: 5_000, log_ops: false, log_handler_ops: false, reduce: false },
+        opts: Opts { stale_reads: p.stale, stale_depth: 3, max_spurious: 0, horizon: 5_000, log_ops: false, log_handler_ops: false, reduce: false, no_discipline: false },
         signals: vec![S1],
         setup: Box::new(setup),
         threads,
@@ -703,12 +703,133 @@ pub fn build_reg(p: RP) -> Scenario<Arc<RS>> {
     };
     Scenario {
         name: p.name.to_string(),
-        opts: Opts { stale_reads: p.stale, stale_depth: 3, max_spurious: 0, horizon: 20_000, log_ops: false, log_handler_ops: false, reduce: false },
+        opts: Opts { stale_reads: p.stale, stale_depth: 3, max_spurious: 0, horizon: 20_000, log_ops: false, log_handler_ops: false, reduce: false, no_discipline: false },
         signals: vec![S1, S2],
         setup: Box::new(setup),
         threads,
         finish: Box::new(finish),
         monitor: Some(Box::new(|| Box::new(SnapMon::default()) as Box<dyn Monitor>)),
+    }
+}
+
+// ---------------------------------------------------------------------------------------------
+// Relay scenarios (C18): deliveries / read sections overlap so that one is always in flight until
+// the mutator is done; each of them is finite. The mutator must still finish.
+
+pub struct Relay {
+    hl: Box<shim::HalfLockProbe<Canary>>,
+    started: shim::atomic::AtomicUsize,
+    done: shim::atomic::AtomicBool,
+}
+
+fn relay_section(started: &shim::atomic::AtomicUsize, done: &shim::atomic::AtomicBool) {
+    use shim::atomic::Ordering::SeqCst;
+    let my = started.fetch_add(1, SeqCst) + 1;
+    // return only after a later section / delivery has started (or the mutator is done)
+    while started.load(SeqCst) == my && !done.load(SeqCst) {
+        shim::thread::yield_now();
+    }
+}
+
+pub fn build_relay_h1(name: &'static str, stores: u32) -> Scenario<Arc<Relay>> {
+    use shim::atomic::Ordering::SeqCst;
+    let setup = move || Arc::new(Relay { hl: Box::new(shim::HalfLockProbe::new(Canary(100))), started: shim::atomic::AtomicUsize::new(0), done: shim::atomic::AtomicBool::new(false) });
+    let reader = |name: &'static str| ThreadSpec {
+        name,
+        body: Box::new(move |s: &Arc<Relay>| {
+            while !s.done.load(SeqCst) {
+                let g = s.hl.read();
+                sched::log("touch", g.0, 0);
+                relay_section(&s.started, &s.done);
+                drop(g);
+            }
+        }),
+        nest_signals: vec![],
+        max_nest: 0,
+    };
+    let writer = ThreadSpec {
+        name: "W",
+        body: Box::new(move |s: &Arc<Relay>| {
+            for q in 0..stores {
+                sched::log("store_call", 10 + q as u64, 0);
+                let mut g = s.hl.write();
+                g.store(Canary(10 + q as u64));
+                drop(g);
+                sched::log("store_ret", 10 + q as u64, 0);
+            }
+            s.done.store(true, SeqCst);
+        }),
+        nest_signals: vec![],
+        max_nest: 0,
+    };
+    Scenario {
+        name: name.to_string(),
+        opts: Opts { stale_reads: false, stale_depth: 2, max_spurious: 0, horizon: 3_000, log_ops: false, log_handler_ops: false, reduce: false, no_discipline: false },
+        signals: vec![S1],
+        setup: Box::new(setup),
+        threads: vec![reader("R1"), reader("R2"), writer],
+        finish: Box::new(|s, e| {
+            let s = Arc::try_unwrap(s).map_err(|_| "engine: state shared".to_string())?;
+            drop(s);
+            if !e.panics.is_empty() {
+                return Err(format!("C18: panicked: {:?}", e.panics));
+            }
+            Ok(e.log.iter().filter(|x| x.tag == "touch").count() as u64)
+        }),
+        monitor: Some(Box::new(|| Box::new(SnapMon::default()) as Box<dyn Monitor>)),
+    }
+}
+
+pub struct RelayReg {
+    started: Arc<shim::atomic::AtomicUsize>,
+    done: Arc<shim::atomic::AtomicBool>,
+}
+
+pub fn build_relay_reg(name: &'static str) -> Scenario<Arc<RelayReg>> {
+    use shim::atomic::Ordering::SeqCst;
+    let setup = move || {
+        fresh_registry(&[(S1, Disp::Ignore), (S2, Disp::Ignore)]);
+        let started = Arc::new(shim::atomic::AtomicUsize::new(0));
+        let done = Arc::new(shim::atomic::AtomicBool::new(false));
+        for sg in [S1, S2] {
+            let (st, dn) = (started.clone(), done.clone());
+            unsafe { reg::register(sg, move || relay_section(&st, &dn)) }.unwrap();
+        }
+        Arc::new(RelayReg { started, done })
+    };
+    let deliverer = |name: &'static str, sg: i32| ThreadSpec {
+        name,
+        body: Box::new(move |s: &Arc<RelayReg>| {
+            while !s.done.load(SeqCst) {
+                sched::raise(sg);
+            }
+        }),
+        nest_signals: vec![],
+        max_nest: 0,
+    };
+    let mutator = ThreadSpec {
+        name: "M",
+        body: Box::new(move |s: &Arc<RelayReg>| {
+            let id = unsafe { reg::register(S1, || ()) }.unwrap();
+            reg::unregister(id);
+            s.done.store(true, SeqCst);
+        }),
+        nest_signals: vec![],
+        max_nest: 0,
+    };
+    Scenario {
+        name: name.to_string(),
+        opts: Opts { stale_reads: false, stale_depth: 2, max_spurious: 0, horizon: 6_000, log_ops: false, log_handler_ops: false, reduce: false, no_discipline: true },
+        signals: vec![S1, S2],
+        setup: Box::new(setup),
+        threads: vec![deliverer("D1", S1), deliverer("D2", S2), mutator],
+        finish: Box::new(|_s, e| {
+            if !e.panics.is_empty() {
+                return Err(format!("C18: panicked: {:?}", e.panics));
+            }
+            Ok(e.log.iter().filter(|x| x.tag == "deliver_end").count() as u64)
+        }),
+        monitor: None,
     }
 }
 
@@ -804,14 +925,16 @@ pub fn scenarios(prop: &str, tier: Tier) -> Vec<Item> {
         }
         "C18" => {
             v.push(item(build_h1(H1P { name: "live_h1_1w1_2r1_all", writers: vec![1], readers: vec![1, 1], nest_writer: false, stale: false }), if q { Some(3) } else { None }, "half-lock: writer must terminate against 2 readers"));
-            v.push(item(build_h1(H1P { name: "live_h1_2w2_2r2", writers: vec![2, 1], readers: vec![2, 1], nest_writer: true, stale: false }), b(2, 3), "2 writers, 2 readers re-entering between barrier checks, nested read"));
+            v.push(item(build_h1(H1P { name: "live_h1_2w2_2r2", writers: vec![2, 1], readers: vec![2, 1], nest_writer: true, stale: false }), b(1, 3), "2 writers, 2 readers re-entering between barrier checks, nested read"));
             let mut p = rp("live_mutators_and_panic", "C18");
             p.pre = vec![Reg(S1, 1)];
             p.mutators = vec![vec![Reg(S1, 2), Unreg(1)], vec![Reg(S2, 5), Unreg(5)], vec![RegForbidden, Reg(S1, 7)]];
-            p.deliverers = vec![vec![S1, S2]];
+            p.deliverers = vec![if q { vec![S1] } else { vec![S1, S2] }];
             p.nest = vec![S1];
             p.pause_in_action = true;
             v.push(item(build_reg(p), b(2, 3), "3 mutators (one panics on a forbidden signal) + deliveries + nested arrivals incl. inside the barrier"));
+            v.push(item(build_relay_h1("relay_h1_sections_always_in_flight", 1), b(1, 2), "two readers relay their sections so that one is always open (each finite) until the writer is done: the writer must still finish"));
+            v.push(item(build_relay_reg("relay_registry_deliveries_always_in_flight"), b(0, 1), "deliveries of two signals on two threads relay (each returns only after a later one started) until the mutator has done a register/unregister round"));
             let mut p = rp("live_same_signal", "C18");
             p.mutators = vec![vec![Reg(S1, 1), UnregSig(S1)], vec![Reg(S1, 5), Unreg(5)]];
             p.deliverers = vec![vec![S1], vec![S1]];
